@@ -74,6 +74,10 @@ def respell(m, rnd):
     ps = Chem.SmilesParserParams()
     ps.removeHs = False
     m2 = Chem.MolFromSmiles(smi, ps)
+    # RDKit's random SMILES writer occasionally flips E/Z on ring-closure bonds (all-Z cyclooctatetraene): the
+    # re-parsed molecule must be the SAME stereoisomer according to RDKit's own canonical SMILES, else it is not used
+    if m2 is not None and canon_nomap(m2) != canon_nomap(m):
+        return None, smi
     return m2, smi
 
 
